@@ -24,7 +24,7 @@ pub fn special(r: &mut Rng) -> f64 {
 }
 
 /// cases of one model: one per entry point
-pub fn solver_cases(lm: &LinearModel, tags: &[String], stream: &str, out: &mut Vec<Case>) {
+pub fn solver_cases(lm: &LinearModel, tags: &[String], stream: &str, variants: &gen_lp::Variants, out: &mut Vec<Case>) {
     let lms = sx::lin_model(lm);
     let opts = Opts::default();
     // once one call on this model has hung, the remaining calls get a short limit (these models solve in microseconds)
@@ -42,10 +42,10 @@ pub fn solver_cases(lm: &LinearModel, tags: &[String], stream: &str, out: &mut V
         let res = gen_lp::result(&o);
         c.imp = res.clone();
         c.req = match kind {
-            SolverKind::Milp => gen_lp::mlp(&raw_milp).map(|r| format!("milp-wrap {} {}", lms, r)),
+            SolverKind::Milp => gen_lp::mlp(&raw_milp).map(|r| format!("{} {} {}", if variants.milp_reads_status { "milp-wrap-fixed" } else { "milp-wrap" }, lms, r)),
             SolverKind::Auto => gen_lp::mlp(&raw_milp).map(|r| format!("auto-wrap {} {}", lms, r)),
             SolverKind::MicroLp => gen_lp::mlp(&call(SolverKind::RawMicroLp)).map(|r| format!("microlp-wrap {} {}", lms, r)),
-            SolverKind::Clarabel => gen_lp::clarabel(&call(SolverKind::RawClarabel)).map(|r| format!("clarabel-wrap {} {}", lms, r)),
+            SolverKind::Clarabel => gen_lp::clarabel_req(lm, &lms, variants, if hung.get() { Duration::from_millis(400) } else { TIMEOUT }),
             _ => None,
         }.unwrap_or_default();
         if matches!(o, Outcome::Hang) { c.req.clear(); }
@@ -62,8 +62,8 @@ pub fn solver_cases(lm: &LinearModel, tags: &[String], stream: &str, out: &mut V
         c.tags.push(if cont { "model-continuous".into() } else { "model-mixed-integer".into() });
         c.nontrivial = matches!(o, Outcome::Solution(_));
         if let Outcome::Panic(m) = &o {
-            c.impl_violation = Some(format!("{} panicked: {}", kind.name(), m));
-            c.sig = Some("panic".into());
+            c.impl_violation = Some(format!("{} panicked instead of returning a solution or an error: {}", kind.name(), m));
+            c.sig = Some(if kind == SolverKind::Clarabel && lm.variables().is_empty() { "clarabel-panic-no-variables".into() } else { "panic".into() });
         }
         c.show = format!("{} on: {}", kind.name(), show_model(lm));
         out.push(c);
@@ -157,6 +157,18 @@ fn as_lp_solution_case(r: &mut Rng, out: &mut Vec<Case>) {
     out.push(c);
 }
 
+/// a model without variables: every row is a constant comparison `0 ⋈ rhs` (auto_solver decides these itself)
+pub fn variable_free(r: &mut Rng) -> LinearModel {
+    use rooc::{Comparison, LinearConstraint, OptimizationType};
+    let rows = (0..r.below(4)).map(|k| {
+        let c = *r.pick(&[Comparison::LessOrEqual, Comparison::GreaterOrEqual, Comparison::Equal, Comparison::LessOrEqual, Comparison::GreaterOrEqual, Comparison::Equal, Comparison::Less, Comparison::Greater]);
+        let rhs = *r.pick(&[0.0, 0.0, 1.0, -1.0, -0.0, 2.5, f64::NAN]);
+        LinearConstraint::new_with_name(vec![], c, rhs, if k == 0 { "r".into() } else { String::new() })
+    }).collect();
+    let opt = r.pick(&[OptimizationType::Min, OptimizationType::Max, OptimizationType::Satisfy]).clone();
+    LinearModel::new_from_parts(vec![], opt, r.range(-3, 3) as f64, rows, vec![], Default::default())
+}
+
 pub fn generate(seed: u64, n: usize, thorough: bool, _corpus: Option<&str>) -> Vec<Case> {
     let mut r = Rng::new(seed);
     let mut cases = vec![];
@@ -168,13 +180,19 @@ pub fn generate(seed: u64, n: usize, thorough: bool, _corpus: Option<&str>) -> V
         ("nonneg", LpCfg { doms: Doms::NonNeg, feasible_pct: 80, ..LpCfg::default() }),
     ];
     let _ = thorough;
+    let variants = gen_lp::detect_variants();
     for i in 0..n {
         let (name, cfg) = &streams[i % streams.len()];
         let (lm, tags) = gen_lp::model(&mut r, cfg);
-        solver_cases(&lm, &tags, name, &mut cases);
+        let mut tags = tags; tags.extend(variants.tags());
+        solver_cases(&lm, &tags, name, &variants, &mut cases);
         helper_cases(&mut r, &lm, &mut cases);
         assign_map_case(&mut r, &mut cases);
         as_lp_solution_case(&mut r, &mut cases);
+        if i % 10 == 0 {
+            let lm = variable_free(&mut r);
+            solver_cases(&lm, &["variable-free".to_string()], "variable-free", &variants, &mut cases);
+        }
     }
     child::shutdown();
     cases
